@@ -80,6 +80,9 @@ void set_terminal_type(string t) { rec("TT " + me() + " " + hx(t)); }
 void set_window_size(int w, int h) { rec("WS " + me() + " " + w + " " + h); }
 void telnet_suboption(string t) { rec("SUBOPT " + me() + " " + hx(t)); }
 
+// what a snooped user sees and types is handed to the snooper through this apply - from inside add_message()
+void receive_snoop(string s) { rec("SNOOP " + me() + " " + strlen(s)); hook("snoop"); }
+
 void net_dead() {
   rec("NETDEAD " + me());
 #ifdef NETDEAD_SCRIPT
